@@ -145,8 +145,10 @@ int32 matrixDtlsGetPmtu(void)
 {
     return VF_DEF;
 }
+static int g_getsid;
 int32 matrixSslGetSessionId(ssl_t *ssl, sslSessionId_t *session)
 {
+    g_getsid++;
     return PS_SUCCESS;
 }
 void sslFreeHSHash(ssl_t *ssl)
@@ -342,7 +344,7 @@ VF_MAIN
 {
     ssl_t *ssl = &S;
     unsigned char *pt = NULL;
-    uint32 ptlen = 0, bytes, i, L;
+    uint32 ptlen = 0, bytes, i, L, pre_bflags = 0;
     int32 rc;
 
     VF_HAVOC(S, ssl_t);
@@ -430,8 +432,21 @@ VF_MAIN
 #else
 
     g_phase = 1;
+    pre_bflags = ssl->bFlags;
     rc = matrixSslReceivedData(ssl, bytes, &pt, &ptlen);
 
+    /* whichever call notices that the handshake completed does the same
+       bookkeeping (the session is saved for resumption exactly once), so the
+       result does not depend on what else arrived in the same read */
+    if (!(pre_bflags & BFLAG_HS_COMPLETE) && (ssl->bFlags & BFLAG_HS_COMPLETE))
+    {
+        VF_REACH("completion_noticed");
+        VF_ASSERT(g_getsid == 1, "c18.api.completion_saves_session_whatever_was_coalesced");
+    }
+    else
+    {
+        VF_ASSERT(g_getsid == 0, "c18.api.session_saved_only_at_completion");
+    }
     VF_ASSERT(g_front_bad == 0, "c18.api.decoder_always_at_buffer_front");
     VF_ASSERT(g_len_bad == 0, "c08.api.decoder_length_within_buffer");
     VF_ASSERT(g_stream_bad == 0, "c18.api.decoder_sees_unconsumed_suffix");
